@@ -89,11 +89,11 @@ let case_text (id : string) (c : case) : string =
   Buffer.contents b
 
 (* a view program reaching sizes `want` from a padded / rotated / strided root: the source side *)
-let gen_src ?(firsts = []) (want : int list) : (int * int) list * op list =
+let gen_src ?(firsts = []) ?(force_compact = false) (want : int list) : (int * int) list * op list =
   let d = List.length want in
   (* compact: the root is exactly the (rotated) logical array -- gap-free storage in a permuted order, the case a
      "contiguous block" fast path must not mistake for canonical order *)
-  let compact = chance 15 in
+  let compact = force_compact || chance 15 in
   let per = List.map (fun n ->
       let stride = if n > 0 && not compact && chance 30 then 2 else 1 in
       let pad_lo = if compact then 0 else rnd_range 0 2 and pad_hi = if compact then 0 else rnd_range 0 2 in
@@ -109,7 +109,19 @@ let gen_src ?(firsts = []) (want : int list) : (int * int) list * op list =
   let reidx = if List.for_all (fun f -> f = 0) firsts then [] else List.concat_map (fun f -> [ OReindexed (z f); ORotated ]) firsts in
   (root, undo @ cyc @ reidx)
 
-let gen_case (vc : Views.cfg) : case * string list =
+(* both operands gap-free, each stored in its own rotation of the logical order (section 9, seed C05-s10: a "both compact"
+   shortcut must not copy the block flat) *)
+let gen_compact_pair () : case * string list =
+  let d = pick [ 2; 2; 3 ] in
+  let want = List.init d (fun _ -> rnd_range 1 4) in
+  let dexts, dops = gen_src ~force_compact:true want in
+  let sexts, sops = gen_src ~force_compact:true want in
+  let what = pick [ "assign"; "assign"; "assign_const"; "assign_rv"; "assign_from_rv"; "assign_rv_rv"; "assign_elems"; "move"; "swap" ] in
+  ({ dexts; dops; sexts; sops; what; args = [] }, [ "do_" ^ what; "compact_pair"; Printf.sprintf "rank%d" d ])
+
+let rec gen_case (vc : Views.cfg) : case * string list =
+  if chance 6 then gen_compact_pair () else gen_case_general vc
+and gen_case_general (vc : Views.cfg) : case * string list =
   (* destination: any view program; regenerate until the view is small enough to dump *)
   let rec dst tries =
     let prog = Buffer.create 256 and obs = Buffer.create 256 in
